@@ -492,17 +492,17 @@ def otype_to_py(o):
 
 
 def strict_first_row_dtype(outs):
-    """numpy.vectorize without otypes: dtype of the first result, all results cast to it"""
+    """numpy.vectorize without otypes: the dtype of the first result, all results cast to it.
+    The path is forked on the python type of the first result, so that `.dtype` of the returned
+    array is concrete on each path (code after the call may inspect it)."""
     first = outs[0]
-    g = R.tyguards(first)
-    res = []
-    for v in outs:
-        alt = None
-        for T, guard in g.items():
-            cv = R.cast(v, T)
-            alt = cv if alt is None else merge(R.zbool(guard), cv, alt)
-        res.append(alt)
-    return SymArray(res)
+    g = list(R.tyguards(first).items())
+    if len(g) == 1:
+        T = g[0][0]
+    else:
+        k = R.decide(len(g), lambda k: R.zbool(g[k][1]))
+        T = g[k][0]
+    return SymArray([R.cast(v, T) for v in outs], T)
 
 
 # --------------------------------------------------------------------------------------
@@ -873,3 +873,153 @@ def _call_dtype_pred(f, args, kw):
 
 
 R.TYPE_INTRINSICS.append((_is_pandas_dtype_pred, _call_dtype_pred))
+
+
+# --------------------------------------------------------------------------------------
+# guarded dictionary over a finite key domain (dict with symbolic integer keys)
+# --------------------------------------------------------------------------------------
+class GDict:
+    """dict whose keys may be symbolic integers from a finite domain.
+    slots: {key: [present_guard, value]};  a store with a symbolic key k updates every slot c of the
+    domain under the condition k == c.  The key domain is a stated bound of the harness
+    (R.CTX.key_domain, e.g. the person labels)."""
+    _symarray = True
+    __hash__ = None
+
+    def __init__(self, base=None):
+        self.slots = {}
+        for k, v in (base or {}).items():
+            self.slots[k] = [True, v]
+
+    def _copy(self):
+        d = GDict()
+        for k, (p, v) in self.slots.items():
+            d.slots[k] = [p, v._copy() if hasattr(v, "_copy") else (list(v) if type(v) is list else v)]
+        return d
+
+    def _merge(self, c, other):
+        d = GDict()
+        for k in list(self.slots) + [k for k in other.slots if k not in self.slots]:
+            pa, va = self.slots.get(k, [False, None])
+            pb, vb = other.slots.get(k, [False, None])
+            if k in self.slots and k in other.slots:
+                v = va if va is vb else merge(c, _as_glist(va), _as_glist(vb)) if (isinstance(va, (GList, list)) or isinstance(vb, (GList, list))) else merge(c, va, vb)
+            else:
+                v = va if k in self.slots else vb
+            d.slots[k] = [R.zor(R.zand(c, pa), R.zand(R.znot(c), pb)), v]
+        return d
+
+    def _domain(self):
+        dom = getattr(R.CTX, "key_domain", None)
+        if dom is None:
+            raise Unsupported("symbolic dictionary key without a declared key domain")
+        return list(dom)
+
+    def _conds(self, key):
+        """[(concrete key, condition)]"""
+        if not is_sym(key):
+            return [(int(key) if R.pytype(key) is int else key, True)]
+        t, _ = R.num(key)
+        dom = self._domain()
+        R.CTX.assumptions.append(z3.Or([t == k for k in dom]))
+        return [(k, t == k) for k in dom]
+
+    def contains(self, key):
+        cs = [R.zand(c, self.slots[k][0]) for k, c in self._conds(key) if k in self.slots]
+        r = R.zor(*cs)
+        return r if isinstance(r, bool) else Sym(r, bool)
+
+    def store(self, key, value):
+        for k, c in self._conds(key):
+            if c is True:
+                self.slots[k] = [True, value]
+            else:
+                if k in self.slots:
+                    p, old = self.slots[k]
+                    nv = merge(c, _fresh(value), old) if not isinstance(old, (GList, list)) and not isinstance(value, (GList, list)) else merge(c, _as_glist(_fresh(value)), _as_glist(old))
+                    self.slots[k] = [R.zor(p, c), nv]
+                else:
+                    self.slots[k] = [c, _fresh(value)]
+
+    def lookup(self, key, default=None, have_default=False):
+        out = None
+        found = []
+        for k, c in self._conds(key):
+            if k not in self.slots:
+                continue
+            p, v = self.slots[k]
+            g = R.zand(c, p)
+            found.append(g)
+            out = v if out is None else merge(R.zbool(g), v, out) if not isinstance(v, (GList, list)) else merge(R.zbool(g), _as_glist(v), _as_glist(out))
+        missing = R.znot(R.zor(*found))
+        if have_default:
+            if out is None:
+                return default
+            if isinstance(out, (GList, list)) or isinstance(default, (GList, list)):
+                return merge(R.zbool(missing), _as_glist(default), _as_glist(out))
+            return merge(R.zbool(missing), default, out)
+        R.CTX.err(missing, "KeyError")
+        if out is None:
+            raise R.PathEnd()
+        return out
+
+    def get(self, key, default=None):
+        return self.lookup(key, default, True)
+
+    def __getitem__(self, key):
+        return self.lookup(key)
+
+    def __setitem__(self, key, value):
+        self.store(key, value)
+
+    def ref(self, key):
+        return SlotRef(self, key)
+
+
+class SlotRef:
+    """d[k] used as the receiver of a mutating call (d[k].append(x)) with a symbolic k"""
+    _symarray = True
+
+    def __init__(self, d, key):
+        self.d, self.key = d, key
+
+    def append(self, x):
+        for k, c in self.d._conds(self.key):
+            if k not in self.d.slots:
+                continue
+            p, v = self.d.slots[k]
+            gl = _as_glist(v)
+            gl = GList(list(gl.entries) + [(R.zand(c, p), x)])
+            self.d.slots[k] = [p, gl]
+
+
+def _fresh(v):
+    if type(v) is list:
+        return GList([(True, x) for x in v])
+    return v
+
+
+def _as_glist(v):
+    if isinstance(v, GList):
+        return v
+    if isinstance(v, (list, tuple)):
+        return GList([(True, x) for x in v])
+    if v is None:
+        return GList([])
+    raise Unsupported(f"cannot treat {type(v).__name__} as a guarded list")
+
+
+def _glist_merge(self, c, other):
+    """entries present under c come from self, under not c from other; the shared prefix is kept"""
+    other = _as_glist(other)
+    i = 0
+    while i < len(self.entries) and i < len(other.entries) and self.entries[i] is other.entries[i]:
+        i += 1
+    out = list(self.entries[:i])
+    out += [(R.zand(c, g), v) for g, v in self.entries[i:]]
+    out += [(R.zand(R.znot(c), g), v) for g, v in other.entries[i:]]
+    return GList(out)
+
+
+GList._merge = _glist_merge
+GList.append = lambda self, x: self.entries.append((True, x))
